@@ -22,6 +22,49 @@ def _exc_name(e):
     return type(e).__name__
 
 
+def _spelling_code(tr, lab_a, lab_b):
+    """snippet asserting that two spellings of a transition build equivalent patterns"""
+    names = ['x', 'y']
+    lines = ['%s = %s' % (names[i], s.expr) for i, s in enumerate(tr.operands)]
+    tm = dict(tr.op.spellings)
+
+    def src(lab):
+        if lab in tm:
+            return tm[lab].format(*names[:len(tr.operands)])
+        args = list(names[:len(tr.operands)])
+        if lab.startswith('class-str'):
+            pos = int(lab[-1])
+            args[pos] = repr(tr.operands[pos].lit)
+            return tr.op.spellings[1][1].format(*args)
+        if lab == 'method-str':
+            args[1] = repr(tr.operands[1].lit)
+            return tr.op.spellings[0][1].format(*args)
+        if lab == 'add-str':
+            return 'x + %r' % tr.operands[1].lit
+        if lab == 'radd-str':
+            return '%r + y' % tr.operands[0].lit
+        raise KeyError(lab)
+    lines.append('a = ' + src(lab_a))
+    lines.append('b = ' + src(lab_b))
+    lines += ['from mc import rx', "assert rx.equiv(str(a), str(b))[0] in ('tree', 'texts'), (str(a), str(b))"]
+    return '\n'.join(lines)
+
+
+def _law_code(tr, lab, expected):
+    """snippet asserting one empty-pattern law on one spelling"""
+    names = ['x', 'y']
+    lines = ['%s = %s' % (names[i], s.expr) for i, s in enumerate(tr.operands)]
+    tm = dict(tr.op.spellings)
+    src = tm.get(lab, tr.op.spellings[0][1]).format(*names[:len(tr.operands)])
+    if expected[0] == 'raise':
+        lines += ['try:', '    r = ' + src, 'except %s:' % expected[1], '    pass', 'else:',
+                  "    raise AssertionError('accepted: ' + str(r))"]
+    else:
+        lines += ['r = ' + src, 'from mc import rx', 'want = %r' % expected[1],
+                  "assert str(r) == want or ((str(r) == '') == (want == '') and rx.equiv(str(r), want)[0] in ('tree', 'texts')), str(r)"]
+    return '\n'.join(lines)
+
+
 class Monitor:
     pid = None
 
@@ -52,8 +95,7 @@ class C02(Monitor):
                     acc.viol.append(V(
                         'C02|spelling|' + _opkey(tr) + '|' + lab,
                         f"spellings of {tr.expr} disagree: {oks[0][0]} -> {first!r}, {lab} -> {sig!r}",
-                        '\n'.join(_code_prefix(tr)[:-1] + [
-                            '# the spellings listed in `outcomes` must build equivalent patterns']),
+                        _spelling_code(tr, oks[0][0], lab),
                         outcomes=[(lab, repr(sig)) for lab, sig in sigs]))
         acc.count('spellings_compared', len(sigs) - 1)
         if tr.result is None or tr.op.family == 'group':
@@ -346,7 +388,7 @@ class C05(Monitor):
                 acc.viol.append(V(
                     'C05|' + _opkey(tr) + '|' + lab,
                     f"{tr.expr} ({lab}): empty-pattern law expects {expected}, got {got}",
-                    '\n'.join(_code_prefix(tr, 0)),
+                    _law_code(tr, lab, expected),
                     expected=expected, observed=got))
 
 
